@@ -162,9 +162,9 @@ func Text(rules []Rule, o TextOpts) string {
 		lines = append(lines, r.String())
 	}
 	decor(len(rules))
-	if len(rules) == 0 && len(lines) == 0 {
-		// an entirely empty file is rejected by the loader ("empty domain set"); a comment-only
-		// file is the documented way to write nothing
+	if len(rules) == 0 {
+		// A file without any line besides the capacity hint is rejected by the loader ("empty
+		// domain set"); a comment is the documented way to write a file that holds no rule.
 		lines = append(lines, "# empty")
 	}
 	s := strings.Join(lines, nl)
